@@ -27,6 +27,7 @@ from typing import Any
 from xml.etree.ElementTree import QName
 
 from framework import Corr, Oracle, err, ok
+from xsdata.exceptions import SerializerError
 from xsdata.formats.dataclass.serializers import PycodeSerializer
 from xsdata.models.datatype import (
     XmlBase64Binary,
@@ -83,7 +84,7 @@ def to_json(o):
     if type(o) is str:
         return {"t": "str", "v": o, "repr": repr(o)}
     if isinstance(o, bytes):
-        return {"t": "bytes", **ref_of(type(o)), "repr": repr(o)}
+        return {"t": "bytes", **ref_of(type(o)), "bs": list(o), "repr": repr(o)}
     if isinstance(o, QName):
         if any(0xD800 <= ord(c) <= 0xDFFF for c in o.text):
             # JSON files cannot hold a lone surrogate: give the code points (never sent to the Lean driver)
@@ -336,7 +337,10 @@ def impl_code(a):
         if any(d[k] != e[k] for k in d):
             raise RuntimeError(f"harness self-check: class description differs for {e['path']}")
     var = a.get("var", "obj")
-    text = _SER.render(obj, var)
+    try:
+        text = _SER.render(obj, var)
+    except SerializerError:
+        return ok({"text": "RAISES:SerializerError", "outcome": "refused:SerializerError"})
     outcome, _, _ = run_source(text, var, obj)
     return ok({"text": text, "outcome": outcome})
 
@@ -367,7 +371,9 @@ def compare_code(mo, io, a):
     STATS["declined"] += mo["ok"]["outcome"] == "unmodelled"
     if not h.get("wf"):
         return False
-    if all(h.get(k) for k in ("wf", "dom", "imports")):
+    if not h.get("reprs"):
+        return False  # the repr() of some str/bytes leaf is not what the model's pyReprStr/pyReprBytes computes
+    if all(h.get(k) for k in ("wf", "dom", "renders", "nesting")):
         STATS["claimed"] += 1
         STATS["claimed_equal"] += io["ok"]["outcome"] == "equal"
         if io["ok"]["outcome"] != "equal" or mo["ok"]["outcome"] != "equal":
@@ -463,6 +469,10 @@ QNAME_TEXTS = [
     "a\x08b", "a\x0cb", "a\x1fb", "a\x00b", "a\x7fb", "a\u2028b", "a\x85b", "\U0001F600", "a\tb", "\\u0041", '"', "\\",
 ]
 STRS = ["", "a", "en", "a'b", 'a"b', "a'b\"c", "a\nb", "€", "\\", "a\\b", "\x7f", "日本", "\t", "{urn:x}a",
+        # every escape class of repr(str): C0 controls, DEL, C1, NBSP / soft hyphen (Latin-1 unprintable), unassigned BMP,
+        # line/paragraph separators, BOM, private use, astral printable, astral unprintable, backslash next to quotes
+        "\x00\x01\x1f", "\r\n", "\x80\x9f", "\xa0\xad", "\u0378", "\u2028\u2029", "\ufeff", "\ue000", "\U0001f600",
+        "\U000e0001", "\U0010ffff", "\\'", '\\"', "'\\", "x\x7fy\xe9z",
         "1", "0", "None", "True", "1.5", "()", "[]", "b'ab'"]  # the last row: str() look-alikes of other defaults
 FLOATS = [0.0, -0.0, 1.0, 1.5, 0.1, 1e22, 1e-7, -2.5e-300, float("inf"), float("-inf"), float("nan"), 3.0]
 DECS = ["0", "1", "1.50", "-0.0", "0.1", "1E+3", "3", "NaN", "Infinity", "-Infinity", "-7.25"]
@@ -517,10 +527,16 @@ def rand_key(rng, enums, depth=0):
 def hash_key(j):
     """key under which Python would merge two dict keys (== and hash)"""
     t = j["t"]
-    if t in ("bool", "int"):
-        return ("num", int(j["v"]))
+    if t == "bool":
+        return ("num", "1/1" if j["v"] else "0/1")
+    if t == "int":
+        return ("num", f"{int(j['v'])}/1")
+    if t in ("float", "opaque") and isinstance(j.get("num"), list):
+        return ("num", "/".join(j["num"]))
     if t in ("str", "qname"):
         return ("s", j.get("v", j.get("text")))
+    if t == "tuple":
+        return ("tuple", tuple(hash_key(x) for x in j["items"]))
     return json.dumps(j, sort_keys=True)
 
 
@@ -657,8 +673,14 @@ def rand_default(rng, world_so_far):
 def rand_fields(rng, world_so_far):
     names = rng.sample(FIELD_NAMES, rng.choice([1, 2, 3, 3, 4, 5]))
     out = []
+    earlier = [e for e in world_so_far if e["kind"] == "model"]
     for n in names:
         d = rand_default(rng, world_so_far)
+        if earlier and rng.random() < 0.08:
+            # `default_factory=ChildModel`: the default is an instance of an earlier class with its own defaults
+            child = rng.choice(earlier)
+            if all(f["default"] is not None for f in child["fields"]):
+                d = {"factory": inst(child)}
         init = True
         if d is not None and rng.random() < 0.12:
             init = False
@@ -674,7 +696,8 @@ def rand_world(rng):
     mods = [MOD_A] if shape < 0.7 else [MOD_A, MOD_B]
     for mod in mods:
         if rng.random() < 0.7:
-            world.append(enum(mod, ["Color"], rng.choice([("A", "B"), ("RED",), ("A", "B", "C")])))
+            world.append(enum(mod, ["Color"], rng.choice([("A", "B"), ("RED",), ("A", "B", "C"), ("A", "B"), ("RED", "dark_red", "_x9"),
+                                                         ("A", "a-b", "class"), ("ok", "é", "None", "x y")])))
         n_top = rng.choice([1, 1, 2, 3])
         tops = rng.sample(CLASS_NAMES, n_top)
         for t in tops:
@@ -693,6 +716,20 @@ def rand_world(rng):
             world.append(other(mod, ["Holder"]))
             world.append(model(mod, ["Holder", "Held"], rand_fields(rng, world)))
     return world
+
+
+import keyword
+
+ODD_ENUM = enum(MOD_A, ["Odd"], ("ok", "a-b", "class", "None", "é", "x y", "1x", "x_1", "match", "lambda"))
+
+
+def odd_enum_name(n):
+    """a member name that `Cls.<name>` cannot denote"""
+    return not n.isidentifier() or keyword.iskeyword(n)
+
+
+def has_odd_enum(a):
+    return any(j["t"] == "enum" and odd_enum_name(j["member"]) for j in walk_vals(a["val"]))
 
 
 def hand_cases():
@@ -743,6 +780,42 @@ def hand_cases():
     case(W, inst(Outer, x=inst(Deep, w=inst(In2, z=J(True)))), "books")
     case(W, inst(Outer, items={"t": "list", "items": [inst(Outer, t=J((1,))), inst(In2, z=J(0.0))]}))
     case(W, inst(Outer, attrs=J({"{urn:x}a": "1", "b": "2"})))
+    # enum members whose name is not an identifier / is a keyword (Enum functional API)
+    WO = [Outer, ODD_ENUM, E_top, E_in, In2, Deep]
+    for n in ODD_ENUM["members"]:
+        if n:
+            case(WO, inst(Outer, x=member(ODD_ENUM, n)))
+    case(WO, inst(Outer, x=J([1]), items={"t": "list", "items": [member(ODD_ENUM, "ok"), member(ODD_ENUM, "a-b")]}))
+    # nesting around the parser's limit of 200 open brackets: lists, and a chain of models holding lists of models
+    def nest(n, leaf):
+        v = leaf
+        for _ in range(n):
+            v = {"t": "list", "items": [v]}
+        return v
+
+    NodeC = model(MOD_A, ["Node"], [fld("items", df([])), fld("v", dv(None))])
+
+    def chain(n):
+        v = inst(NodeC, v=J(1))
+        for _ in range(n):
+            v = inst(NodeC, items={"t": "list", "items": [v]})
+        return v
+
+    for n in (50, 150, 199, 200, 201, 230):
+        case([], nest(n, J(1)), "v")
+    case([], nest(198, J([(1, {2})])), "v")
+    case([], nest(199, J(frozenset({1}))), "v")
+    case([], nest(198, J(frozenset({1}))), "v")
+    for n in (40, 98, 99, 100, 101):
+        case([NodeC], chain(n))
+    # `default_factory=ChildModel` and a non-empty token-list default (the shapes of seeded/C18-falsy-factory-default)
+    Hdr = model(MOD_A, ["Header"], [fld("version", dv("1.0"))])
+    Pal = model(MOD_A, ["Palette"], [fld("colors", df(["red", "green"])), fld("sizes", df([])), fld("header", {"factory": inst(Hdr)}),
+                                      fld("name", dv(None))])
+    WP = [Hdr, Pal]
+    for kw in ({}, {"colors": J([])}, {"header": J(None)}, {"colors": J(["red", "green"])}, {"header": inst(Hdr, version=J("2"))},
+               {"colors": J([]), "sizes": J([]), "header": J(None), "name": J("")}, {"header": inst(Hdr)}):
+        case(WP, inst(Pal, **kw))
     # same class name in two modules
     A1 = model(MOD_A, ["Address"], [fld("x", dv(None)), fld("y", dv(0))])
     A2 = model(MOD_B, ["Address"], [fld("x", dv(None)), fld("w", dv(0))])
@@ -824,13 +897,23 @@ def real_fixture_cases():
     return out
 
 
-def bounded_cases():
+def bounded_cases(tier="quick"):
+    tier = "quick" if tier == "quick" else "thorough"
     """every scalar x every default kind in a one-field class (elision table),
     and every container shape up to size 2 over a small alphabet"""
     out = []
     defaults = [None, dv(None), dv(0), dv(1), dv(0.0), dv("a"), dv(QName("a")), dv(Decimal("1")), dv(()), df(()), df([]), df({}), df([1]), dv(b"ab")]
     values = [J(None), J(0), J(1), J(False), J(True), J(0.0), J(-0.0), J(1.0), J("a"), J(QName("a")), J(Decimal("1.0")), J(()), J([]), J({}), J([1]), J((1,)), J(b"ab"), J(XmlHexBinary(b"ab")),
               J("0"), J("1"), J("None"), J("()"), J("[]"), J("{}"), J("b'ab'"), J("[1]")]
+    if tier != "quick":
+        # thorough: every member of every ==-group and every look-alike, as default and as value
+        extra = [x for grp in EQ_VARIANTS + LOOKALIKES for x in grp]
+        uniq = []
+        for x in extra:
+            if x not in uniq:
+                uniq.append(x)
+        values = values + [x for x in uniq if x not in values]
+        defaults = defaults + [{"value": x} for x in uniq if x["t"] not in ("list", "dict") and {"value": x} not in defaults]
     for d in defaults:
         for init in (True, False) if d is not None else (True,):
             C = model(MOD_A, ["C"], [fld("f", d, init), fld("g", dv(None))])
@@ -848,8 +931,8 @@ def bounded_cases():
 def gen_code(rng, tier):
     yield from hand_cases()
     yield from real_fixture_cases()
-    yield from bounded_cases()
-    n_worlds = 150 if tier == "quick" else 1500
+    yield from bounded_cases(tier)
+    n_worlds = {"quick": 150, "oracle-thorough": 1500}.get(tier, 6000)
     per = 20 if tier == "quick" else 40
     for _ in range(n_worlds):
         w = rand_world(rng)
@@ -920,7 +1003,7 @@ def gen_dq(rng, tier):
     for t in ["\\u0041", "\\u00e9", "\\ud800", "\\udfff", "\\u12", "\\u", "\\u004g", "\\uD7FF\\uE000", "\\u0000", "a\\u000Ab", "\\U00000041"]:
         yield {"s": t}
     alpha = 'ab\\\\\\"\'ntxu0014dDfF8N{}\n\r €'
-    for _ in range(1500 if tier == "quick" else 20000):
+    for _ in range(1500 if tier == "quick" else 40000):
         yield {"s": "".join(rng.choice(alpha) for _ in range(rng.randint(0, 6)))}
 
 
@@ -931,7 +1014,7 @@ def gen_json(rng, tier):
     for t in QNAME_TEXTS + STRS + ["\u2028\u2029", "\ufeff", "\U0010FFFF", "\ud7ff\ue000"]:
         yield {"s": t}
     alpha = 'ab\\"\'/\n\r\t\x00\x01\x08\x0b\x0c\x1f\x7f\x80 €\u2028😀'
-    for _ in range(1500 if tier == "quick" else 20000):
+    for _ in range(1500 if tier == "quick" else 40000):
         yield {"s": "".join(rng.choice(alpha) for _ in range(rng.randint(0, 8)))}
 
 
@@ -962,7 +1045,7 @@ def gen_qnamecp(rng, tier):
     for h in hand:
         yield {"cps": h}
     pool = [0xD800, 0xDABC, 0xDC00, 0xDFFF, 0x1F600, 0x10FFFF, 0xE9, 0x20AC, 0x2028, 34, 92, 10, 13, 9, 0, 8, 12, 0x1F, 0x7F, 97, 117, 48]
-    for _ in range(1200 if tier == "quick" else 20000):
+    for _ in range(1200 if tier == "quick" else 40000):
         yield {"cps": [rng.choice(pool) if rng.random() < 0.8 else rng.randrange(0x110000) for _ in range(rng.randint(0, 6))]}
 
 
@@ -991,7 +1074,7 @@ def gen_dqcp(rng, tier):
     for t in ["\\ud800", "\\udfff", "\\ud83d\\ude00", "a\\udc00b", "\\ud7ff\\ue000", "\\u0041", "\\ud80", "\\udg00", "\\uD800"]:
         yield {"s": t}
     alpha = 'ab\\\\"ntud8cf0 €'
-    for _ in range(1200 if tier == "quick" else 20000):
+    for _ in range(1200 if tier == "quick" else 40000):
         yield {"s": "".join(rng.choice(alpha) for _ in range(rng.randint(0, 8)))}
 
 
@@ -1008,31 +1091,278 @@ def impl_dqcp(a):
     return ok([ord(c) for c in v])
 
 
+STR_ALPHA = list("ab'\"\\\t\n\r\x00\x1f \x7f\x80\xa0\xad\xe9\u0378\u20ac\u2028\ue000\ufeff\U0001f600\U000e0001\U0010ffff")
+
+
+def gen_strrepr(rng, tier):
+    for i in list(range(0x180)) + [0x378, 0x2028, 0xD7FF, 0xE000, 0xFEFF, 0xFFFF, 0x10000, 0x1F600, 0xE0001, 0x10FFFF]:
+        yield {"s": chr(i)}
+        yield {"s": "'" + chr(i)}
+        yield {"s": "'\"" + chr(i) + "\\"}
+    for t in STRS + QNAME_TEXTS:
+        yield {"s": t}
+    for _ in range(1500 if tier == "quick" else 60000):
+        if rng.random() < 0.15:
+            cp = rng.randrange(0x110000)
+            while 0xD800 <= cp <= 0xDFFF:
+                cp = rng.randrange(0x110000)
+            yield {"s": chr(cp) + rng.choice(["", "'", '"'])}
+        else:
+            yield {"s": "".join(rng.choice(STR_ALPHA) for _ in range(rng.randint(1, 8)))}
+
+
+def impl_strrepr(a):
+    r = repr(a["s"])
+    try:
+        back = ast.literal_eval(r)
+    except Exception:  # noqa: BLE001
+        back = None
+    return ok({"repr": r, "back": back})
+
+
+def classify_strrepr(a, o):
+    s = a["s"]
+    q = o["ok"]["repr"][0]
+    kinds = set()
+    for c in s:
+        n = ord(c)
+        kinds.add("ascii" if 32 <= n < 127 else "c0/del" if n < 32 or n == 127 else "latin1" if n < 256 else "bmp" if n < 65536 else "astral")
+    esc = "esc" if "\\" in o["ok"]["repr"] else "raw"
+    return f"quote={q} {esc} " + "+".join(sorted(kinds) or ["empty"])
+
+
+def gen_bytesrepr(rng, tier):
+    for i in range(256):
+        yield {"bs": [i]}
+        yield {"bs": [39, i]}
+        yield {"bs": [39, 34, i, 92]}
+    for _ in range(800 if tier == "quick" else 40000):
+        yield {"bs": [rng.choice([39, 34, 92, 9, 10, 13, 0, 31, 32, 97, 126, 127, 128, 255]) if rng.random() < 0.7 else rng.randrange(256)
+                      for _ in range(rng.randint(0, 8))]}
+
+
+def impl_bytesrepr(a):
+    r = repr(bytes(a["bs"]))
+    return ok({"repr": r, "back": list(ast.literal_eval(r))})
+
+
+def classify_bytesrepr(a, o):
+    r = o["ok"]["repr"]
+    return f"quote={r[1]} " + ("esc" if "\\" in r else "raw")
+
+
+def gen_strlit(rng, tier):
+    """whole literals, well-formed or not: what does the parser make of them?"""
+    hand = ["''", '""', "'a'", '"a"', "'a\"'", "\"a'\"", "'a", "a'", "'a\"", "'\\x41'", "'\\x4'", "'\\u00e9'", "'\\U0001f600'", "'\\U00110000'",
+            "'\\ud800'", "'\\101'", "'\\N{DASH}'", "'\\q'", "'a\nb'", "'\\\n'", "'" * 3 + "a" + "'" * 3, "'a''b'", "b'a'", "", "'", "'\\'", "'\\\\'"]
+    for t in hand:
+        yield {"t": t}
+    alpha = list("ab'\"\\xuU0149afN{}\n é")
+    for _ in range(1500 if tier == "quick" else 60000):
+        q = rng.choice("'\"")
+        if rng.random() < 0.6:  # whole escape tokens, so that valid \x \u \U forms occur often
+            body = "".join(rng.choice(LIT_TOKENS) for _ in range(rng.randint(0, 5)))
+        else:
+            body = "".join(rng.choice(alpha) for _ in range(rng.randint(0, 7)))
+        r = rng.random()
+        yield {"t": (q + body + q) if r < 0.85 else (q + body) if r < 0.93 else body}
+
+
+def _parse_literal(t, want):
+    try:
+        with warnings.catch_warnings():
+            warnings.simplefilter("ignore")
+            node = ast.parse(t, mode="eval").body
+    except (SyntaxError, ValueError):
+        return None
+    # one literal token only: no implicit concatenation, no expression, no blanks around it
+    if not isinstance(node, ast.Constant) or not isinstance(node.value, want):
+        return None
+    try:
+        import io
+        import tokenize
+
+        toks = [tk for tk in tokenize.generate_tokens(io.StringIO(t).readline)
+                if tk.type not in (tokenize.NEWLINE, tokenize.ENDMARKER, tokenize.NL)]
+    except (tokenize.TokenError, SyntaxError, IndentationError):
+        return None
+    if len(toks) != 1 or toks[0].string != t:
+        return None
+    return node.value
+
+
+def impl_strlit(a):
+    t = a["t"]
+    v = _parse_literal(t, str)
+    if v is None or t[:1] not in ("'", '"') or t[:3] in ("'''", '"""'):
+        return err("unmodelled")
+    return ok(v)
+
+
+def gen_byteslit(rng, tier):
+    hand = ["b''", 'b""', "b'a'", "b'\\x41'", "b'\\x4'", "b'\\u0041'", "b'\\N'", "b'\\101'", "b'é'", "b'a", "'a'", "b'\\''", "b\"'\"", "b'\\q'", "B'a'"]
+    for t in hand:
+        yield {"t": t}
+    alpha = list("ab'\"\\xu0149afN\n é")
+    for _ in range(1000 if tier == "quick" else 40000):
+        q = rng.choice("'\"")
+        if rng.random() < 0.6:
+            body = "".join(rng.choice(LIT_TOKENS) for _ in range(rng.randint(0, 5)))
+        else:
+            body = "".join(rng.choice(alpha) for _ in range(rng.randint(0, 7)))
+        yield {"t": "b" + q + body + (q if rng.random() < 0.9 else "")}
+
+
+def impl_byteslit(a):
+    t = a["t"]
+    v = _parse_literal(t, bytes)
+    if v is None or t[:1] != "b" or t[1:4] in ("'''", '"""'):
+        return err("unmodelled")
+    return ok(list(v))
+
+
+def classify_lit(a, o):
+    t = a["t"]
+    kind = "ok" if "ok" in o else "rejected"
+    feats = [k for k, pat in (("x", "\\x"), ("u", "\\u"), ("U", "\\U"), ("octal", "\\0"), ("N", "\\N")) if pat in t]
+    return kind + " " + ("+".join(feats) or ("esc" if "\\" in t else "plain"))
+
+
 def gen_pyeq(rng, tier):
-    w = []
-    vals = [x for grp in EQ_VARIANTS for x in grp] + [J(None), J(float("nan")), J(Decimal("NaN")), J(float("inf")), J(Decimal("Infinity")),
-                                                    J(()), J([]), J({}), J([1]), J((1,)), J([True]), J({"a": 1}), J({"a": 1.0}), J("b"), J(b"a"), J(0.1), J(Decimal("0.1")),
-                                                    J(XmlDate(2000, 1, 2)), J(XmlDate(1999, 12, 31)), J(XmlDuration("P1D")), J([[0]]), J([(False,)]), J(((),)),
-                                                    J(set()), J(frozenset()), J({1}), J(frozenset({1})), J({1, 2}), J(frozenset({1, 2})), J({1.0}), J([{1}])]
+    """Python == vs pyEq: scalars x scalars (numeric tower, QName/str, bytes
+    subclasses, NaN, specials), containers, and instances of two dataclasses
+    and two enums (same / other class, same / other values, nested)."""
+    PA = model(MOD_A, ["P"], [fld("a", dv(None)), fld("b", df([]))])
+    PB = model(MOD_B, ["P"], [fld("a", dv(None)), fld("b", df([]))])
+    QA = model(MOD_A, ["Q"], [fld("a", dv(None))], frozen=True)
+    EA = enum(MOD_A, ["E"], ("A", "B"))
+    EB = enum(MOD_B, ["E"], ("A", "B"))
+    w = [PA, PB, QA, EA, EB]
+    vals = [x for grp in EQ_VARIANTS for x in grp] + [
+        J(None), J(float("nan")), J(Decimal("NaN")), J(float("inf")), J(Decimal("Infinity")), J(float("-inf")), J(Decimal("-Infinity")),
+        J(()), J([]), J({}), J([1]), J((1,)), J([True]), J({"a": 1}), J({"a": 1.0}), J("b"), J(b"a"), J(0.1), J(Decimal("0.1")),
+        J(XmlDate(2000, 1, 2)), J(XmlDate(1999, 12, 31)), J(XmlDuration("P1D")), J([[0]]), J([(False,)]), J(((),)),
+        J(set()), J(frozenset()), J({1}), J(frozenset({1})), J({1, 2}), J(frozenset({1, 2})), J({1.0}), J([{1}]),
+        J(""), J(b""), J(QName("")), J("a'b"), J(b"a'b"), J(XmlBase64Binary(b"a")), J(10**30), J(1e30), J(Decimal(10**30)),
+        J([QName("a")]), J(["a"]), J({"a": QName("a")}), J({QName("a"): 1}), J([1.0, True]), J([1, 1]), J((1, [2, {3: 4}])), J([1, [2, {3: 4.0}]]),
+        member(EA, "A"), member(EA, "B"), member(EB, "A"), J([1, None]), J([None, 1]),
+        inst(PA), inst(PA, a=J(1)), inst(PA, a=J(True)), inst(PA, a=J(1), b=J([1])), inst(PB), inst(PB, a=J(1)), inst(QA), inst(QA, a=J(1.0)),
+        inst(PA, a=inst(PA, a=J(0))), inst(PA, a=inst(PA, a=J(False))), inst(PA, a=inst(PB, a=J(0))), inst(PA, a=member(EA, "A")),
+        inst(PA, a=member(EB, "A")), inst(PA, b=J([float("nan")])), J([inst(PA)]), J([inst(PB)]),
+    ]
     for x in vals:
         for y in vals:
             yield {"world": w, "a": x, "b": y}
+    if tier != "quick":
+        # random pairs built from the same pools as the code generator, one side often a perturbed copy
+        for _ in range(60000):
+            x = rand_value(rng, w, 2)
+            y = x if rng.random() < 0.3 else eq_variant(rng, x) if rng.random() < 0.5 else rand_value(rng, w, 2)
+            yield {"world": w, "a": x, "b": y}
+
+
+def classify_pyeq(a, o):
+    def kind(j):
+        t = j["t"]
+        if t in ("bool", "int", "float") or (t == "opaque" and j.get("num") is not None):
+            return "num"
+        return {"str": "text", "qname": "text", "list": "seq", "tuple": "seq", "set": "set", "opaque": "opaque"}.get(t, t)
+
+    return f"{kind(a['a'])}~{kind(a['b'])} -> {o.get('ok')}"
+
+
+def classify_dq(a, o):
+    s = a.get("s", "")
+    feats = [k for k, pat in (("u", "\\u"), ("x", "\\x"), ("U", "\\U"), ("N", "\\N"), ("octal", "\\0"), ("quote", '"'), ("nl", "\n")) if pat in s]
+    return ("ok" if "ok" in o else "declined/rejected") + " " + ("+".join(feats) or ("esc" if "\\" in s else "plain"))
+
+
+def classify_text(a, o):
+    s = a.get("s", "")
+    kinds = set()
+    for c in s:
+        n = ord(c)
+        kinds.add("quote/backslash" if c in '"\\' else "short-esc" if c in "\n\r\t\b\f" else "c0" if n < 32 else "ascii" if n < 127 else
+                  "del/c1" if n < 160 else "bmp" if n < 0x10000 else "astral")
+    return "+".join(sorted(kinds)) or "empty"
+
+
+def classify_cps(a, o):
+    cps = a["cps"]
+    sur = sum(1 for c in cps if 0xD800 <= c <= 0xDFFF)
+    pair = any(0xD800 <= x <= 0xDBFF and 0xDC00 <= y <= 0xDFFF for x, y in zip(cps, cps[1:]))
+    return ("no-surrogate" if not sur else "pair" if pair else "lone x%d" % min(sur, 3)) + (" +astral" if any(c > 0xFFFF for c in cps) else "") + (
+        " +escapes" if any(c in (34, 92) or c < 32 for c in cps) else "")
+
+
+LIT_TOKENS = ["a", "b", " ", "é", "'", '"', "\\'", '\\"', "\\\\", "\\n", "\\t", "\\a", "\\x41", "\\xe9", "\\xff", "\\u00e9", "\\u20ac", "\\u0041",
+              "\\U0001f600", "\\U0010ffff", "\\q", "\\.", "\\ud800", "\\U00110000", "\\x4", "\\u12", "\\101", "\\0", "\\N{DASH}", "\n", "\\"]
+
+
+def gen_seq(rng, tier):
+    """several renders on ONE serializer (one shared XmlContext): A, B, A again,
+    the same class in another module in between - the text of each render must
+    be what a fresh serializer gives (no state may leak between calls)"""
+    for _ in range(25 if tier == "quick" else 2000):
+        w = rand_world(rng)
+        ms = [e for e in w if e["kind"] == "model"]
+        vals = [rand_instance(rng, w, rng.choice(ms), 2) for _ in range(rng.choice([2, 3, 4]))]
+        vals.append(vals[0])
+        if rng.random() < 0.5:
+            vals.insert(1, vals[0])
+        yield {"world": w, "vals": vals}
+    # the same class name in two modules, rendered one after the other (never together)
+    A1 = model(MOD_A, ["Address"], [fld("x", dv(None)), fld("y", dv(0))])
+    A2 = model(MOD_B, ["Address"], [fld("x", dv(None)), fld("w", dv(0))])
+    yield {"world": [A1, A2], "vals": [inst(A1, y=J(1)), inst(A2, w=J(2)), inst(A1, y=J(1)), inst(A2, x=J(1.5)), inst(A1, x=J(float("inf")))]}
+    E1 = enum(MOD_A, ["Kind"], ("A",))
+    E2 = enum(MOD_B, ["Kind"], ("A", "B"))
+    H = model(MOD_A, ["H"], [fld("k", dv(None))])
+    yield {"world": [E1, E2, H], "vals": [inst(H, k=member(E1)), inst(H, k=member(E2, "B")), inst(H, k=member(E1)), inst(H)]}
+
+
+def impl_seq(a):
+    b = build_world(a["world"])
+    ser = PycodeSerializer()
+    out = []
+    for j in a["vals"]:
+        obj = build_val(j, b)
+        try:
+            out.append(ser.render(obj, "obj"))
+        except SerializerError:
+            out.append("RAISES:SerializerError")
+    return ok(out)
+
+
+def classify_seq(a, o):
+    texts = o.get("ok", [])
+    return f"{len(texts)} renders, {sum(1 for t in texts if t.startswith('RAISES'))} refused, {len(set(texts))} distinct"
 
 
 CORRS = [
     Corr("c18.code", gen_code, impl_code, canon=canon_code, compare=compare_code, classify=classify_code,
          nontrivial=lambda a, o: a["val"]["t"] in ("model", "list", "tuple", "dict", "set"),
          describe="PycodeSerializer.render text + outcome of exec'ing it vs model (text exact; outcome unless the model declines)"),
-    Corr("c18.dq", gen_dq, impl_dq, compare=compare_dq, nontrivial=lambda a, o: "\\" in a["s"],
+    Corr("c18.seq", gen_seq, impl_seq, classify=classify_seq,
+         describe="several renders on one PycodeSerializer / XmlContext (A, B, A again; same class name in two modules in turn) vs the stateless model"),
+    Corr("c18.dq", gen_dq, impl_dq, compare=compare_dq, classify=classify_dq, nontrivial=lambda a, o: "\\" in a["s"],
          describe='CPython decoding of the body of a "…" literal vs decodeDq (model may decline)'),
-    Corr("c18.pyeq", gen_pyeq, impl_pyeq, describe="Python == on scalar/collection values vs pyEq"),
-    Corr("c18.json", gen_json, impl_json, nontrivial=lambda a, o: len(a["s"]) > 0,
+    Corr("c18.strrepr", gen_strrepr, impl_strrepr, classify=classify_strrepr, nontrivial=lambda a, o: len(a["s"]) > 0,
+         describe="repr(s) and its evaluation vs pyReprStr (interpreter's printability table) and decodeStrLit"),
+    Corr("c18.bytesrepr", gen_bytesrepr, impl_bytesrepr, classify=classify_bytesrepr, nontrivial=lambda a, o: len(a["bs"]) > 0,
+         describe="repr(bytes) and its evaluation vs pyReprBytes and decodeBytesLit"),
+    Corr("c18.strlit", gen_strlit, impl_strlit, compare=compare_dq, classify=classify_lit, nontrivial=lambda a, o: "\\" in a["t"],
+         describe="CPython's reading of a whole str literal (either quote, all escapes) vs decodeStrLit (model may decline)"),
+    Corr("c18.byteslit", gen_byteslit, impl_byteslit, compare=compare_dq, classify=classify_lit, nontrivial=lambda a, o: "\\" in a["t"],
+         describe="CPython's reading of a whole bytes literal vs decodeBytesLit (model may decline)"),
+    Corr("c18.pyeq", gen_pyeq, impl_pyeq, classify=classify_pyeq, describe="Python == on scalar/collection values vs pyEq"),
+    Corr("c18.json", gen_json, impl_json, classify=classify_text, nontrivial=lambda a, o: len(a["s"]) > 0,
          describe="json.dumps(s, ensure_ascii=False) vs jsonDumps (every code point below U+0250, then random)"),
-    Corr("c18.qnamecp", gen_qnamecp, impl_qnamecp, nontrivial=lambda a, o: any(0xD800 <= c <= 0xDFFF for c in a["cps"]),
+    Corr("c18.qnamecp", gen_qnamecp, impl_qnamecp, classify=classify_cps, nontrivial=lambda a, o: any(0xD800 <= c <= 0xDFFF for c in a["cps"]),
          describe="literal_value(QName(text)) for texts given by code points, lone surrogates included: text between the quotes and what CPython reads back vs qnameLitBody / decodeCp"),
-    Corr("c18.dqcp", gen_dqcp, impl_dqcp, compare=compare_dq, nontrivial=lambda a, o: "\\u" in a["s"],
+    Corr("c18.dqcp", gen_dqcp, impl_dqcp, compare=compare_dq, classify=classify_dq, nontrivial=lambda a, o: "\\u" in a["s"],
          describe='CPython decoding of a "…" body to code points (surrogate escapes included) vs decodeCp (model may decline)'),
-    Corr("c18.qnamelit", gen_json, impl_qname_literal, nontrivial=lambda a, o: len(a["s"]) > 0,
+    Corr("c18.qnamelit", gen_json, impl_qname_literal, classify=classify_text, nontrivial=lambda a, o: len(a["s"]) > 0,
          describe="literal_value(QName(s)) text and its evaluation by CPython vs the model's text and decodeDq"),
 ]
 
@@ -1081,12 +1411,47 @@ def in_domain(a):
     return True
 
 
+def graph_name_clash(obj):
+    """Own traversal of the object graph (everything reachable, elided or not):
+    does one outermost class name belong to two modules?  Only then may
+    `render` refuse the object."""
+    names: dict[str, set] = {}
+    seen = set()
+
+    def visit(o):
+        if id(o) in seen:
+            return
+        seen.add(id(o))
+        t = type(o)
+        names.setdefault(t.__qualname__.split(".")[0], set()).add(t.__module__)
+        if isinstance(o, (list, tuple, set, frozenset)):
+            for x in o:
+                visit(x)
+        elif isinstance(o, dict):
+            for k, v in o.items():
+                visit(k)
+                visit(v)
+        elif is_dataclass(o) and not isinstance(o, type):
+            for f in fields(o):
+                visit(getattr(o, f.name, None))
+
+    visit(obj)
+    return sorted(n for n, ms in names.items() if len(ms) > 1)
+
+
 def oracle_check(a):
     if not in_domain(a):
         return None
     b, obj = real_case(a)
     var = a.get("var", "obj")
-    text = PycodeSerializer().render(obj, var)
+    try:
+        text = PycodeSerializer().render(obj, var)
+    except SerializerError as e:
+        # an explicit refusal is acceptable only for a graph that really holds
+        # two classes of one name (ASSUMPTIONS); anything else is a violation
+        if graph_name_clash(obj):
+            return None
+        return f"render refused an object graph without any class-name clash: {e}"
     outcome, detail, got = run_source(text, var, obj)
     if outcome.startswith("exc:") or outcome == "unbound":
         return f"exec of the rendered source raised {detail}"
@@ -1095,71 +1460,67 @@ def oracle_check(a):
     return None
 
 
-def has_import_clash(a):
-    """do the *emitted* import lines bind one name from two modules, or rebind
-    the builtin `float` that the source calls?"""
-    b, obj = real_case(a)
-    text = PycodeSerializer().render(obj, a.get("var", "obj"))
-    head, _, body = text.partition("\n\n\n")
-    seen = {}
-    for line in head.split("\n"):
-        parts = line.split()
-        if len(parts) == 4 and parts[0] == "from" and parts[2] == "import":
-            seen.setdefault(parts[3], set()).add(parts[1])
-    if "float" in seen and 'float("' in body:
-        return True
-    if ("set" in seen and "set()" in body) or ("frozenset" in seen and "frozenset()" in body):
-        return True
-    return any(len(v) > 1 for v in seen.values())
-
-
-def rename_clashes(a):
-    """give every module-level class name that is used by two modules (or is
-    `float`) a unique name, consistently in the world and in the values"""
-    taken = {"float", "QName", "Decimal", "set", "frozenset"} | {type(o).__name__ for o in OPAQUES + BYTES}
-    ren = {}
-    for e in a["world"]:
-        key = (e["module"], e["path"][0])
-        if key in ren or e.get("real"):
-            continue
-        n = e["path"][0]
-        if n in taken and not any(k[1] == n and k[0] == e["module"] for k in ren):
-            i = 2
-            while f"{n}_{i}" in taken:
-                i += 1
-            ren[key] = f"{n}_{i}"
-        else:
-            ren[key] = n
-        taken.add(ren[key])
-
-    def walk(x):
-        if isinstance(x, list):
-            return [walk(y) for y in x]
-        if isinstance(x, dict):
-            y = {k: walk(v) for k, v in x.items()}
-            if "module" in y and isinstance(y.get("path"), list) and y["path"]:
-                new = ren.get((y["module"], y["path"][0]))
-                if new is not None:
-                    y["path"] = [new] + y["path"][1:]
-            return y
-        return x
-
-    return walk(a)
-
-
 def covered(a, msg):
-    """A failing input belongs to the one remaining known finding when the
-    *emitted* import lines bind one name twice (a predicate on the
-    implementation's output) *and* the property holds once the clashing classes
-    are renamed - so nothing else is wrong with it."""
+    """A failing input belongs to the listed finding when the value holds an
+    enum member whose name `Cls.<name>` cannot denote (a predicate on the input)
+    *and* the property holds once exactly those members are replaced by None -
+    so nothing else is wrong with it."""
     try:
-        if not has_import_clash(a):
+        hit = covered_nesting(a, msg)
+        if hit:
+            return hit
+        if not has_odd_enum(a):
             return None
-        if oracle_check(rename_clashes(a)) is None:
-            return "C18-import-name-clash"
+
+        def fix(j):
+            t = j["t"]
+            if t == "enum" and odd_enum_name(j["member"]):
+                return {"t": "none"}
+            if t in ("list", "tuple", "set"):
+                return {**j, "items": [fix(x) for x in j["items"]]}
+            if t == "dict":
+                return {**j, "items": [[fix(k), fix(v)] for k, v in j["items"]]}
+            if t == "model":
+                return {**j, "attrs": [[n, fix(v)] for n, v in j["attrs"]]}
+            return j
+
+        if oracle_check({**a, "val": fix(a["val"])}) is None:
+            return "C18-enum-member-name"
     except Exception:  # noqa: BLE001
         return None
     return None
+
+
+def bracket_depth(text):
+    """most brackets open at once in the source text, string literals skipped
+    (own scanner: the rendered literals are single-line, quote-delimited)"""
+    depth = best = 0
+    i, n = 0, len(text)
+    while i < n:
+        c = text[i]
+        if c in "'\"":
+            i += 1
+            while i < n and text[i] != c:
+                i += 2 if text[i] == "\\" else 1
+        elif c in "([{":
+            depth += 1
+            best = max(best, depth)
+        elif c in ")]}":
+            depth -= 1
+        i += 1
+    return best
+
+
+PARSER_LIMIT = 200
+
+
+def covered_nesting(a, msg):
+    """the rendered source nests brackets deeper than CPython's tokenizer allows"""
+    if "too many nested parentheses" not in msg:
+        return None
+    b, obj = real_case(a)
+    text = PycodeSerializer().render(obj, a.get("var", "obj"))
+    return "C18-nesting-limit" if bracket_depth(text) > PARSER_LIMIT else None
 
 
 def gen_oracle(rng, tier):
@@ -1167,59 +1528,51 @@ def gen_oracle(rng, tier):
     C = model(MOD_A, ["C"], [fld("q", dv(None))])
     for t in ("a\ud800b", "\udfff", "{urn:\udc00}x", "\ud83d\ude00"):
         yield {"world": [C], "val": inst(C, q=J(QName(t))), "var": "obj"}
-    yield from gen_code(rng, "quick")
+    yield from gen_code(rng, "quick" if tier == "quick" else "oracle-thorough")
 
 
 ORACLES = [
     Oracle("c18.roundtrip", gen_oracle, oracle_check, covered=covered, from_ops=("c18.code",)),
 ]
 
+def finding_enum_member_name():
+    """members created through the Enum functional API may have any name"""
+    m = types.ModuleType("c18find_e")
+    sys.modules["c18find_e"] = m
+    m.Odd = Enum("Odd", {"a-b": 1, "class": 2, "ok": 3}, module="c18find_e")
 
-# ---------------------------------------------------------------------------
-# known findings: replayed on the real code, independent of the JSON builder
-# ---------------------------------------------------------------------------
-_FIND_SRC = '''
-from dataclasses import dataclass, field
-from enum import Enum
-from typing import Any
+    @dataclasses.dataclass
+    class Holder:
+        x: Any = None
 
-@dataclass
-class Outer:
-    class Inner(Enum):
-        A = 1
-    x: Any = None
-    t: tuple = field(default_factory=tuple)
-
-@dataclass
-class Address:
-    x: Any = None
-    {extra}: int = 0
-'''
+    Holder.__module__ = "c18find_e"
+    Holder.__qualname__ = "Holder"
+    m.Holder = Holder
+    outs = []
+    for name in ("a-b", "class", "ok"):
+        obj = Holder(x=m.Odd[name])
+        text = PycodeSerializer().render(obj)
+        outs.append(run_source(text, "obj", obj)[0])
+    return outs == ["exc:AttributeError", "exc:SyntaxError", "equal"], "/".join(outs)
 
 
-def _scratch(name, extra):
-    m = types.ModuleType(name)
-    sys.modules[name] = m
-    exec(_FIND_SRC.replace("{extra}", extra), m.__dict__)  # noqa: S102
-    return m
+def finding_nesting_limit():
+    def nest(n):
+        v = 1
+        for _ in range(n):
+            v = [v]
+        return v
+
+    outs = []
+    for n in (200, 201):
+        obj = nest(n)
+        text = PycodeSerializer().render(obj)
+        outcome, detail, _ = run_source(text, "obj", obj)
+        outs.append(outcome + ("" if outcome == "equal" else ":" + detail[:60]))
+    return outs[0] == "equal" and outs[1].startswith("exc:SyntaxError") and "too many nested" in outs[1], " / ".join(outs)
 
 
-def _replay(obj):
-    text = PycodeSerializer().render(obj)
-    outcome, detail, got = run_source(text, "obj", obj)
-    return text, outcome, detail
-
-
-def finding_clash():
-    ma, mb = _scratch("c18find_a", "y"), _scratch("c18find_b", "w")
-    _, o1, _ = _replay(ma.Address(x=mb.Address(w=1)))
-    _, o2, d2 = _replay(mb.Address(x=ma.Address(y=1)))
-    return o1 == "unequal" and o2 == "exc:TypeError", f"{o1}/{o2} {d2}"
-
-
-FINDINGS = {
-    "C18-import-name-clash": finding_clash,
-}
+FINDINGS = {"C18-enum-member-name": finding_enum_member_name, "C18-nesting-limit": finding_nesting_limit}
 
 _RULE = (
     "hand-picked cases (every repr_object/literal_value/build_imports branch, each remaining and each repaired defect, cross-type default elision), "
@@ -1241,32 +1594,38 @@ def __getattr__(name):
     raise AttributeError(name)
 
 LEVEL_TEXT = (
-    "Lean theorems for all worlds and all values at AST level, about the code as it is after the fix commits: the expression "
-    "the serializer emits, evaluated in the namespace its own import lines create, yields a value Python-equal to the original "
-    "(code_rt_partial: nested classes and enums, tuples, sets and frozensets, QNames, ...), every name it uses is bound to the class "
-    "it means (imports_sufficient_partial), and the literal written for a QName text is read back by the parser as that text "
-    "for every sequence of code points, lone surrogates included (qname_codepoints_roundtrip). One region remains excluded, a "
-    "proved counterexample and a replayed finding: one class name imported from two modules. The model is tied to /repo by "
-    "comparing the exact emitted text and the exec outcome on generated dataclasses and values, json.dumps and the QName literal "
-    "on every code point below U+0250, surrogates and random strings, and the theorem's claim is re-checked on the real code "
-    "wherever its hypotheses hold."
+    "Lean theorems for all worlds and all values at AST level, about the code as it is after the fix commits: render either "
+    "refuses with SerializerError (exactly when one outermost class name belongs to two modules) or returns source whose "
+    "expression, evaluated in the namespace its own import lines create, yields a value Python-equal to the original "
+    "(render_refuses_or_round_trips, code_rt_partial: nested classes and enums, tuples, sets, frozensets, QNames, str and bytes of "
+    "any content, ...); every name the source uses is bound to the class it means (imports_sufficient, full strength); repr() of "
+    "every str (for every printability table) and of every bytes value is read back by the parser as that value "
+    "(str_repr_roundtrips, bytes_repr_roundtrips), as is the literal written for a QName text, lone surrogates included "
+    "(qname_codepoints_roundtrip). One region remains excluded from the round trip, a proved counterexample and a replayed "
+    "finding: more than 200 nested brackets (CPython's tokenizer limit, probed each run). Enum members whose name is not an "
+    "ASCII identifier or is a keyword are outside the model (listed finding). The model is tied to /repo by comparing the exact "
+    "emitted text and the exec outcome on generated dataclasses and values (also several renders on one serializer), repr() and "
+    "literal parsing of str/bytes, json.dumps and the QName literal on every code point below U+0250, surrogates and random "
+    "strings, Python == on 94x94 value pairs, and the theorem's claim is re-checked on the real code wherever its hypotheses hold."
 )
 LEVEL_NOTE = (
-    "Trusted: Lean kernel; CPython's parsing of the emitted text into the modelled AST (string-literal decoding of the QName "
-    "argument is modelled and compared) and the repr/eval round trip of str, bytes, finite floats, Decimal and xsdata date/time "
-    "values (their repr is an input); Fraction() as the numeric value used for ==; the sampling correspondence check. "
-    "IntEnum/StrEnum, NaN-valued defaults, signalling NaN, dict/set permutations and duplicate collapse, dataclass instances as "
-    "dict keys or set elements, generators and classes defined inside functions are not modelled."
+    "Trusted: Lean kernel; CPython's parsing of the emitted text into the modelled AST (string/bytes literal decoding, the "
+    "bracket nesting limit and repr(str)/repr(bytes) are modelled and compared) and the repr/eval round trip of finite floats, "
+    "Decimal and xsdata date/time values (their repr is an input); Fraction() as the numeric value used for ==; the sampling "
+    "correspondence check. IntEnum/StrEnum/Flag, NaN-valued defaults, signalling NaN, dict/set permutations and duplicate "
+    "collapse, dataclass instances as dict keys or set elements, generators, NamedTuples and classes defined inside functions "
+    "are not modelled."
 )
 TRUSTED = [
     "CPython parses the emitted text into the PyExpr AST the model evaluates (the text itself is compared character by character with the real output)",
-    "repr()/literal round trip of str, bytes, finite float, Decimal and XmlDate/XmlTime/XmlDateTime/XmlDuration/XmlPeriod is taken from the interpreter (repr strings are inputs of the model)",
+    "repr()/literal round trip of finite float, Decimal and XmlDate/XmlTime/XmlDateTime/XmlDuration/XmlPeriod is taken from the interpreter (repr strings are inputs of the model); for str and bytes the repr is an input too, but every input is checked against the model's own pyReprStr/pyReprBytes and the domain predicate asks that it decodes to the value",
     "numeric == between bool/int/float/Decimal is exact comparison of fractions.Fraction values supplied by the harness",
     "format pieces (indent, float(\"…\"), QName(\"…\") and its escapes for all ASCII characters, import line, enum member, bracket layout of every array kind) and dir(builtins) are regenerated by probing the live functions and tied to the model by the theorems literal_formats, layout_probes, qname_escapes_ascii",
 ]
 ASSUMPTIONS = [
     "attributes of init=False fields hold the class default (a constructor call cannot set them); instances violating this are outside the property's domain",
     "'equal' is Python ==; for the failing-input search NaN is additionally taken equal to NaN position-wise",
-    "classes are importable by module and qualified name (module-level or nested in classes, not in functions)",
+    "classes are importable by module and qualified name (module-level or nested in classes, not in functions or __main__)",
+    "a SerializerError from render is an accepted outcome exactly for object graphs that hold two classes of one outermost name from different modules (checked by an own traversal of the object graph)",
     "field defaults contain no NaN; enums are plain Enum; str values consist of Unicode scalar values (QName texts may hold lone surrogates); no signalling NaN",
 ]
